@@ -5,6 +5,7 @@ import (
 	"fmt"
 	"io"
 	"os"
+	"path"
 	"path/filepath"
 	"strings"
 
@@ -13,6 +14,16 @@ import (
 )
 
 var emptyPrefix = &gofakes3.Prefix{}
+
+// checkObjectName refuses keys that do not name exactly one file below the
+// bucket's directory: joining and cleaning a key with empty, "." or ".."
+// segments would silently address a different key, or a different bucket.
+func checkObjectName(objectName string) error {
+	if objectName == "" || path.Clean("/"+objectName) != "/"+objectName {
+		return gofakes3.ErrorInvalidArgument("key", objectName, "key cannot be stored as a file path by this backend")
+	}
+	return nil
+}
 
 type readerWithCloser struct {
 	io.Reader
